@@ -276,8 +276,11 @@ func Nodes(names ...string) []client.Object {
 }
 
 func NewState(budget int, objs ...client.Object) *State {
-	cp := append([]client.Object{}, objs...)
-	SortObjs(cp)
+	cp := make([]*Obj, len(objs))
+	for i, o := range objs {
+		cp[i] = Wrap(o)
+	}
+	SortWrapped(cp)
 	return &State{Objs: cp, Budget: budget}
 }
 
